@@ -279,7 +279,8 @@ pub mod read {
 
         loop {
             if read_more(&mut buffer, &mut reader, read, max_len, timeout).await? == 0 {
-                break;
+                // The peer closed before the head was complete.
+                return Err(Error::UnexpectedEnd);
             }
             // A short first segment may hold only part of the method or version token
             // (the longest one is `PROPPATCH`): judge the start once enough bytes, or the
